@@ -39,6 +39,9 @@ def shr (a : Int) (n : Nat) : Int := a / ((2 ^ n : Nat) : Int)
     For `alignment = 0` Python computes `-o & -1 = -o`; the model keeps that. -/
 def pyPad (o : Int) (a : Int) : Int := land (-o) (a - 1)
 
+/-- `-o & (a - 1)` on the non-negative offsets the library works with -/
+def padNat (o a : Nat) : Nat := (pyPad (o : Int) (a : Int)).toNat
+
 /-- The textbook rule: bytes to add to `o` to reach the next multiple of `a`. -/
 def pad (o a : Nat) : Nat := (a - o % a) % a
 
